@@ -218,3 +218,34 @@ def namespace_classes(m, meta):
                         elif ok and rc == "fresh" and not (T.Args is C and C.get_render_cls() is T and dict(C._FIELDS) == {"a": 1, "b": 2}):
                             problems.append({"association not recorded": (T.Args, C)})
     return {"reproduced": bool(problems), "input": f"{n} namespace class definitions", "observed": [repr(p)[:260] for p in problems[:3]]}
+
+
+def ns_update(m, meta):
+    """ArgsNamespace.update on a real namespace class: every subset of known fields, with and without an unknown name"""
+    import itertools
+    import tests  # noqa: F401
+    from term_image.geometry import Size
+    from term_image.renderable import ArgsNamespace, Renderable, UnknownArgsFieldError
+    R = type("NsUpdR", (Renderable,), {"_get_render_size_": lambda s: Size(1, 1), "_render_": lambda s, a, b: None})
+    NS = type("NsUpdArgs", (ArgsNamespace,), {"__annotations__": {"a": int, "b": int}, "a": 1, "b": 2}, render_cls=R)
+    problems = []
+    for ga, gb, gu in itertools.product((False, True), repeat=3):
+        ns = NS(a=5, b=6)
+        kw = {**({"a": 11} if ga else {}), **({"b": 21} if gb else {}), **({"c": 3} if gu else {})}
+        try:
+            got, err = ns.update(**kw), None
+        except Exception as e:  # noqa: BLE001
+            got, err = None, type(e)
+        if (ns.a, ns.b) != (5, 6):
+            problems.append({"given": kw, "observed": "the namespace updated was altered"})
+        if gu:
+            if err is not UnknownArgsFieldError:
+                problems.append({"given": kw, "observed": f"{'accepted' if err is None else err.__name__}; an unknown field must raise UnknownArgsFieldError"})
+        elif err is not None:
+            problems.append({"given": kw, "observed": f"raised {err.__name__}"})
+        elif not kw:
+            if got is not ns:
+                problems.append({"given": kw, "observed": "no fields: not the namespace itself"})
+        elif got is ns or type(got) is not NS or (got.a, got.b) != (11 if ga else 5, 21 if gb else 6):
+            problems.append({"given": kw, "observed": f"result {got!r}"})
+    return {"reproduced": bool(problems), "input": problems[:4]}
